@@ -508,6 +508,37 @@ func rulesC12(c *Ctx) {
 			o := c.FnObj(pM, "", helper)
 			c.Check(len(gen.CallsIn(gen.Body, o, false)) > 0 && len(vph.CallsIn(vph.Body, o, false)) > 0, "shared-helper:"+helper, gen, nil, "client and server derive header bindings/values with the same helper %s", helper)
 		}
+		// ... and both derive them from the tool they were given for this message, every time: the bindings they iterate over
+		// are assigned from extractParamHeaderAnnotations(tool) and from nothing else (a memoised answer belongs to the schema
+		// the tool had when it was first seen; the same *Tool can be registered again with another schema)
+		epa := c.FnObj(pM, "", "extractParamHeaderAnnotations")
+		for _, f := range []*Func{gen, vph} {
+			toolP := f.ParamWhere(func(t types.Type) bool {
+				pt, ok := t.(*types.Pointer)
+				return ok && isNamedType(pt.Elem(), modPath+"/"+pM, "Tool")
+			})
+			var bindings types.Object
+			inspectNoLit(f.Body, func(n ast.Node) {
+				if rs, ok := n.(*ast.RangeStmt); ok {
+					if sl, ok := f.TypeOf(rs.X).Underlying().(*types.Slice); ok && namedOf(sl.Elem()) != nil && namedOf(sl.Elem()).Obj().Name() == "paramHeaderBinding" {
+						bindings = f.ObjOf(rs.X)
+					}
+				}
+			})
+			okSrc := bindings != nil && toolP != nil
+			nw := 0
+			for _, w := range Writes(f.Body, false) {
+				if bindings == nil || f.ObjOf(w.LHS) != bindings {
+					continue
+				}
+				nw++
+				ce, isC := ast.Unparen(w.RHS).(*ast.CallExpr)
+				if !isC || !f.IsCallTo(ce, epa) || len(ce.Args) != 1 || f.ObjOf(ce.Args[0]) != types.Object(toolP) {
+					okSrc = false
+				}
+			}
+			c.Check(okSrc && nw >= 1, "bindings-derived-per-message:"+f.Name(), f, nil, "the parameter-header bindings are extractParamHeaderAnnotations(tool) of this call's tool (%d assignments)", nw)
+		}
 		// methods carrying Mcp-Name
 		en := c.Fn(pM, "", "extractName")
 		clientMethods := map[string]bool{}
